@@ -661,8 +661,8 @@ class Inliner:
             a = bound[p]
             if p not in stored and _simple(a) and not (_names_in(a) & (stored - {p})):
                 subst[p] = a
-            elif isinstance(a, ast.Name) and a.id == p and isinstance(st, ast.Return) and st.value is call:
-                continue        # `return helper(x=x)`: the caller's x is dead after the call, the helper may go on using the name
+            elif isinstance(a, ast.Name) and a.id == p and ((isinstance(st, ast.Return) and st.value is call) or _dead_after(fn, st, p)):
+                continue        # `return helper(x=x)` / x never read again: the caller's x is dead after the call, the helper may go on using the name
             else:
                 fresh = p if (p not in caller_names) else p + tag
                 rename[p] = fresh
@@ -716,6 +716,19 @@ class Inliner:
         for o in out:
             ast.fix_missing_locations(o)
         return out
+
+
+def _dead_after(fn: ast.AST, st: ast.stmt, name: str) -> bool:
+    """`st` is a top-level statement of `fn` (so not inside a loop) and `name` is not read by any later statement."""
+    body = getattr(fn, "body", None)
+    if not isinstance(body, list) or st not in body:
+        return False
+    i = body.index(st)
+    for later in body[i + 1:]:
+        for x in ast.walk(later):
+            if isinstance(x, ast.Name) and x.id == name and isinstance(x.ctx, ast.Load):
+                return False
+    return True
 
 
 def _replace_node(root: ast.AST, old: ast.AST, new: ast.AST):
